@@ -82,6 +82,12 @@ func (x *Exec) ndCall(fr *frame, fn *ssa.Function, args []Value) Value {
 	case "nd_event_str":
 		i := x.constInt(args[0], "event index")
 		return x.events[i].Args[0]
+	case "nd_event_int":
+		i := x.constInt(args[0], "event index")
+		if len(x.events[i].Args) < 3 {
+			return c64(0)
+		}
+		return x.events[i].Args[2]
 	case "nd_event_str2":
 		i := x.constInt(args[0], "event index")
 		if len(x.events[i].Args) < 2 {
